@@ -29,6 +29,8 @@ def replay(obj):
     import onnx
     from mc import gen_graphs as gg
 
+    if obj.get("seed_hex") and len(obj["history"]) == 3 and str(obj["history"][1]).startswith("edit:"):
+        return _passes.replay_edit(obj["seed_hex"], obj["history"], obj["oracle"])
     if obj.get("seed_hex"):
         return _passes.replay_history(obj["seed_hex"], obj["history"], "c05", obj["oracle"])
     seed = obj["seed"]
